@@ -173,7 +173,7 @@ def shard_compositions(sh, part, parts):
             n = min(n, 9)
         rows = make_sequence(rng, n, 3)
         args = pipe.make_args(task='identify_rare_values', heuristic='Constant', rare_value_count_upper_bound=rng.choice([0, 1, 2, 5]),
-                              missing_value_symbols=rng.choice([',{}', ',{},NA', 'NA', '{}']), max_unique_hist_constraint=rng.choice([2, 3, 30000, 30000]))
+                              missing_value_symbols=rng.choice([',{}', ',{},NA', 'NA', '{}', ',{},', 'NA,{},NA']), max_unique_hist_constraint=rng.choice([2, 3, 30000, 30000]))
         ref = None
         for sizes in compositions(n):
             cr = pipe.fresh_core_ranking()
@@ -205,7 +205,7 @@ def shard_random(sh, part, parts):
             for i, r in enumerate(rows):
                 r[0] = 'id%d' % (i % max(2, n // 3))
         args = pipe.make_args(task='identify_rare_values', heuristic='Constant', rare_value_count_upper_bound=rng.choice([0, 1, 2, 5]),
-                              missing_value_symbols=rng.choice([',{}', ',{},NA', 'NA']), max_unique_hist_constraint=rng.choice([5, 50, 30000]))
+                              missing_value_symbols=rng.choice([',{}', ',{},NA', 'NA', ',,{}']), max_unique_hist_constraint=rng.choice([5, 50, 30000]))
         ref = None
         for rep in range(4):
             # random composition
